@@ -9,6 +9,7 @@
 #include "util.h"
 
 #include <errno.h>
+#include <limits.h>
 #include <stdio.h>
 #include <stdlib.h>
 #include <string.h>
@@ -51,10 +52,15 @@ bool ctl_parse_info(const char *filename, pid_t *creator_pid, int64_t *sock_ref)
     const char *pid_start = filename+strlen(CTL_UX_PREFIX);
 
     char *end_ptr;
-    pid_t cpid = strtol(pid_start, &end_ptr, 10);
+    long lpid = strtol(pid_start, &end_ptr, 10);
 
     if (end_ptr == pid_start)
 	return false;
+
+    if (lpid < 0 || lpid > INT_MAX)
+	return false;
+
+    pid_t cpid = lpid;
 
     if (end_ptr[0] != '-')
 	return false;
